@@ -2,6 +2,13 @@
 //@@ needs: hll_estimator.rs
 // Array6: 6-bit packed registers. State at lg_k = 4 (13 bytes); index arithmetic for every lg_k <= 21.
 use super::*;
+
+pub(crate) fn num_zeros_of(a: &Array6) -> u32 {
+    a.num_zeros
+}
+pub(crate) fn estimator_of(a: &Array6) -> &HipEstimator {
+    &a.estimator
+}
 use crate::hll::estimator::verif_kani_hll_estimator as ve;
 use crate::hll::estimator::verif_kani_hll_estimator::rec_update;
 use crate::hll::pack_coupon;
